@@ -3,6 +3,7 @@ from tools import smtpgen
 from tools.lv import unhex, unhexlist
 
 LEVEL = "proof"
+RETRY_TIMING = True
 JOBS = 16
 CORRESPONDENCE = ("Model/Client.lean (connect, ehlo, send, rcpts, message, abort, testConnected, quit over a scripted peer) vs "
                   "SmtpConnection and AsyncSmtpConnection driven over loopback against the same scripted peer")
@@ -38,6 +39,11 @@ def gen(tier, rng):
                 for nsends in (1, 2):
                     cases.append(c20.pool_case(client, 300, 1, False, nsends, "a@b.c", to, b"hello\r\n", [sc, h, h]))
     return cases
+
+
+def timing_dependent(case):
+    # a real client against a real peer with read timeouts: a disagreement is re-run alone before it counts
+    return case.split("\t")[0] in ("pool", "wstall", "client", "tls", "sched")
 
 
 def nontrivial(case):
